@@ -7,7 +7,7 @@
 use vstd::prelude::*;
 //@prelude fmt_macro
 verus! {
-//@prelude std_specs r32 attrmap
+//@prelude std_specs r32 attrmap pending
 
 pub enum SvgdxError { ParseError(String), Other }
 pub type Result<T> = core::result::Result<T, SvgdxError>;
@@ -98,18 +98,18 @@ pub type M = Map<Seq<char>, Seq<char>>;
 /// numeric value of attribute k, "0" when absent (SVG: an unspecified x/y/cx/.. is 0)
 pub open spec fn num0(m: M, k: Seq<char>) -> Option<real> { if m.dom().contains(k) { strp_spec(m[k]) } else { strp_spec("0"@) } }
 pub open spec fn numk(m: M, k: Seq<char>) -> Option<real> { if m.dom().contains(k) { strp_spec(m[k]) } else { None } }
-/// a positional svgdx attribute that still has to be resolved (expanded / evaluated) before the
-/// element's geometry is final
-pub open spec fn pending(m: M) -> bool {
-    m.dom().contains("xy"@) || m.dom().contains("cxy"@) || m.dom().contains("xy1"@) || m.dom().contains("xy2"@)
-    || m.dom().contains("xy-loc"@) || m.dom().contains("dxy"@) || m.dom().contains("wh"@) || m.dom().contains("dwh"@)
-    || m.dom().contains("dw"@) || m.dom().contains("dh"@) || m.dom().contains("surround"@) || m.dom().contains("inside"@)
-}
 pub open spec fn is_rectlike(n: Seq<char>) -> bool { n == "box"@ || n == "rect"@ || n == "image"@ || n == "svg"@ || n == "foreignObject"@ }
 pub open spec fn has_table_entry(n: Seq<char>) -> bool {
     n == "point"@ || n == "text"@ || is_rectlike(n) || n == "line"@ || n == "polyline"@ || n == "polygon"@ || n == "path"@ || n == "circle"@ || n == "ellipse"@
 }
 
+/// one of the first n names is an attribute of the element
+pub open spec fn has_any(m: Map<Seq<char>, Seq<char>>, ks: Seq<&str>, n: int) -> bool decreases n {
+    if n <= 0 { false } else { has_any(m, ks, n - 1) || m.dom().contains(ks[n - 1]@) }
+}
+/// R-any: `names.iter().any(|a| self.has_attr(a))`
+#[verifier::external_body]
+pub fn any_attr(e: &SvgElement, names: &[&str]) -> (r: bool) ensures r == has_any(e.attrs@, names@, names@.len() as int) { unimplemented!() }
 impl SvgElement {
     #[verifier::external_body]
     pub fn get_attr(&self, key: &str) -> (r: Option<String>) ensures opt_sv(r) == map_get(self.attrs@, key@) { unimplemented!() }
@@ -118,9 +118,17 @@ impl SvgElement {
 //@ ensures
 //@ - r == self.attrs@.dom().contains(key@)
 //@end
+//@item src/element.rs :: impl SvgElement :: fn has_foreign_position
+//@ strlit "rect" "use" "image" "svg" "foreignObject" "circle" "ellipse" "line" "cx" "cy" "x1" "y1" "x2" "y2" "x" "y"
+//@ replace[R-any] <<<foreign.iter().any(|a| self.has_attr(a))>>> => <<<any_attr(self, foreign)>>>
+//@ body-start
+//@ | proof { reveal_with_fuel(has_any, 8); }
+//@ ensures
+//@ - r == foreign_pos(self.name@, self.attrs@)     @@C10.pending.foreign_spec
+//@end
 //@item src/element.rs :: impl SvgElement :: fn has_pending_geometry
 //@ ensures
-//@ - r == pending(self.attrs@)     @@C10.pending.spec @@C09.pending.spec
+//@ - r == unresolved(self.name@, self.attrs@)     @@C10.pending.spec @@C09.pending.spec
 //@end
 
 //@item src/element.rs :: impl SvgElement :: fn bbox_raw
@@ -129,28 +137,28 @@ impl SvgElement {
 //@ replace[R-abstract] <<<            strp(value).is_err()\n                && !(value.contains(VAR_PREFIX)\n                    || value.contains(ELREF_ID_PREFIX)\n                    || value.contains(ELREF_PREVIOUS))>>> => <<<            strp(value).is_err() && !str_has_ref_char(value)>>>
 //@ cut[R-abstract] <<<                let mut min_x = f32::MAX;>>> .. <<<                } else {\n                    None\n                }\n            }\n            "path">>> => <<<                return polyline_bbox(self);\n            }\n            "path">>>
 //@ ensures
-//@ - !pending(self.attrs@) && is_rectlike(self.name@) && numk(self.attrs@, "width"@) is Some && numk(self.attrs@, "height"@) is Some
+//@ - !unresolved(self.name@, self.attrs@) && is_rectlike(self.name@) && numk(self.attrs@, "width"@) is Some && numk(self.attrs@, "height"@) is Some
 //@     && num0(self.attrs@, "x"@) is Some && num0(self.attrs@, "y"@) is Some ==> r is Ok && r->Ok_0 is Some && ({
 //@       let x = num0(self.attrs@, "x"@)->Some_0; let y = num0(self.attrs@, "y"@)->Some_0;
 //@       bx(r->Ok_0->Some_0) == (x, y, x + numk(self.attrs@, "width"@)->Some_0, y + numk(self.attrs@, "height"@)->Some_0) })     @@C08.bbox.table.rect
-//@ - !pending(self.attrs@) && self.name@ == "circle"@ && numk(self.attrs@, "r"@) is Some && num0(self.attrs@, "cx"@) is Some && num0(self.attrs@, "cy"@) is Some ==> r is Ok && r->Ok_0 is Some && ({
+//@ - !unresolved(self.name@, self.attrs@) && self.name@ == "circle"@ && numk(self.attrs@, "r"@) is Some && num0(self.attrs@, "cx"@) is Some && num0(self.attrs@, "cy"@) is Some ==> r is Ok && r->Ok_0 is Some && ({
 //@       let cx = num0(self.attrs@, "cx"@)->Some_0; let cy = num0(self.attrs@, "cy"@)->Some_0; let rr = numk(self.attrs@, "r"@)->Some_0;
 //@       bx(r->Ok_0->Some_0) == (cx - rr, cy - rr, cx + rr, cy + rr) })     @@C08.bbox.table.circle
-//@ - !pending(self.attrs@) && self.name@ == "ellipse"@ && numk(self.attrs@, "rx"@) is Some && numk(self.attrs@, "ry"@) is Some && num0(self.attrs@, "cx"@) is Some && num0(self.attrs@, "cy"@) is Some ==> r is Ok && r->Ok_0 is Some && ({
+//@ - !unresolved(self.name@, self.attrs@) && self.name@ == "ellipse"@ && numk(self.attrs@, "rx"@) is Some && numk(self.attrs@, "ry"@) is Some && num0(self.attrs@, "cx"@) is Some && num0(self.attrs@, "cy"@) is Some ==> r is Ok && r->Ok_0 is Some && ({
 //@       let cx = num0(self.attrs@, "cx"@)->Some_0; let cy = num0(self.attrs@, "cy"@)->Some_0;
 //@       bx(r->Ok_0->Some_0) == (cx - numk(self.attrs@, "rx"@)->Some_0, cy - numk(self.attrs@, "ry"@)->Some_0, cx + numk(self.attrs@, "rx"@)->Some_0, cy + numk(self.attrs@, "ry"@)->Some_0) })     @@C08.bbox.table.ellipse
-//@ - !pending(self.attrs@) && self.name@ == "line"@ && num0(self.attrs@, "x1"@) is Some && num0(self.attrs@, "y1"@) is Some && num0(self.attrs@, "x2"@) is Some && num0(self.attrs@, "y2"@) is Some ==> r is Ok && r->Ok_0 is Some && ({
+//@ - !unresolved(self.name@, self.attrs@) && self.name@ == "line"@ && num0(self.attrs@, "x1"@) is Some && num0(self.attrs@, "y1"@) is Some && num0(self.attrs@, "x2"@) is Some && num0(self.attrs@, "y2"@) is Some ==> r is Ok && r->Ok_0 is Some && ({
 //@       let x1 = num0(self.attrs@, "x1"@)->Some_0; let y1 = num0(self.attrs@, "y1"@)->Some_0; let x2 = num0(self.attrs@, "x2"@)->Some_0; let y2 = num0(self.attrs@, "y2"@)->Some_0;
 //@       bx(r->Ok_0->Some_0) == (rmin(x1, x2), rmin(y1, y2), rmax(x1, x2), rmax(y1, y2)) })     @@C08.bbox.table.line
-//@ - !pending(self.attrs@) && (self.name@ == "point"@ || self.name@ == "text"@) && num0(self.attrs@, "x"@) is Some && num0(self.attrs@, "y"@) is Some ==> r is Ok && r->Ok_0 is Some && ({
+//@ - !unresolved(self.name@, self.attrs@) && (self.name@ == "point"@ || self.name@ == "text"@) && num0(self.attrs@, "x"@) is Some && num0(self.attrs@, "y"@) is Some ==> r is Ok && r->Ok_0 is Some && ({
 //@       let x = num0(self.attrs@, "x"@)->Some_0; let y = num0(self.attrs@, "y"@)->Some_0;
 //@       bx(r->Ok_0->Some_0) == (x, y, x, y) })     @@C08.bbox.table.point
 //@ - !has_table_entry(self.name@) ==> r is Ok && r->Ok_0 is None     @@C08.bbox.table.other
-//@ - is_rectlike(self.name@) && r is Ok && r->Ok_0 is Some ==> !pending(self.attrs@)     @@C10.bbox.only_resolved.rect
-//@ - self.name@ == "circle"@ && r is Ok && r->Ok_0 is Some ==> !pending(self.attrs@)     @@C10.bbox.only_resolved.circle
-//@ - self.name@ == "ellipse"@ && r is Ok && r->Ok_0 is Some ==> !pending(self.attrs@)     @@C10.bbox.only_resolved.ellipse
-//@ - self.name@ == "line"@ && r is Ok && r->Ok_0 is Some ==> !pending(self.attrs@)     @@C10.bbox.only_resolved.line
-//@ - (self.name@ == "point"@ || self.name@ == "text"@) && r is Ok && r->Ok_0 is Some ==> !pending(self.attrs@)     @@C10.bbox.only_resolved.point
+//@ - is_rectlike(self.name@) && r is Ok && r->Ok_0 is Some ==> !unresolved(self.name@, self.attrs@)     @@C10.bbox.only_resolved.rect
+//@ - self.name@ == "circle"@ && r is Ok && r->Ok_0 is Some ==> !unresolved(self.name@, self.attrs@)     @@C10.bbox.only_resolved.circle
+//@ - self.name@ == "ellipse"@ && r is Ok && r->Ok_0 is Some ==> !unresolved(self.name@, self.attrs@)     @@C10.bbox.only_resolved.ellipse
+//@ - self.name@ == "line"@ && r is Ok && r->Ok_0 is Some ==> !unresolved(self.name@, self.attrs@)     @@C10.bbox.only_resolved.line
+//@ - (self.name@ == "point"@ || self.name@ == "text"@) && r is Ok && r->Ok_0 is Some ==> !unresolved(self.name@, self.attrs@)     @@C10.bbox.only_resolved.point
 //@end
 
 //@item src/element.rs :: impl SvgElement :: fn bbox
